@@ -59,7 +59,18 @@ func (p *ParallelRemoteSchemaIntrospector) IntrospectRemoteSchemas(urls ...strin
 	return lo.Map(res, func(t *inner, _ int) *ast.Schema { return t.schema }), nil
 }
 
-func introspectRemoteSchema(factory QueryerFactory, url string) (*ast.Schema, error) {
+func introspectRemoteSchema(factory QueryerFactory, url string) (schema *ast.Schema, err error) {
+	// a type reference cut off by the depth of the introspection query is a start-up error
+	defer func() {
+		if r := recover(); r != nil {
+			if r == errTypeRefTooDeep {
+				schema, err = nil, fmt.Errorf("%s: %w", url, errTypeRefTooDeep)
+				return
+			}
+			panic(r)
+		}
+	}()
+
 	queryer := factory(url)
 	resp, err := queryer.Query([]*requests.Request{{
 		Query:         introspectionQuery,
@@ -76,7 +87,7 @@ func introspectRemoteSchema(factory QueryerFactory, url string) (*ast.Schema, er
 
 	remoteSchema := res.Schema
 
-	schema := &ast.Schema{
+	schema = &ast.Schema{
 		Types:         map[string]*ast.Definition{},
 		Directives:    map[string]*ast.DirectiveDefinition{},
 		PossibleTypes: map[string][]*ast.Definition{},
@@ -386,7 +397,15 @@ func parseArgList(args []IntrospectionInputValue) ast.ArgumentDefinitionList {
 	return result
 }
 
+// errTypeRefTooDeep is raised (and turned into an introspection error) when a type
+// reference is wrapped deeper than the introspection query asks for
+var errTypeRefTooDeep = errors.New("type reference is nested deeper than the introspection query supports")
+
 func parseTypeRef(response *IntrospectionTypeRef) *ast.Type {
+	if response == nil || ((response.Kind == "NON_NULL" || response.Kind == "LIST") && response.OfType == nil) {
+		panic(errTypeRefTooDeep)
+	}
+
 	// we could have a non-null list of a field
 	if response.Kind == "NON_NULL" && response.OfType.Kind == "LIST" {
 		return ast.NonNullListType(parseTypeRef(response.OfType.OfType), &ast.Position{})
